@@ -5,13 +5,19 @@ import vlib
 MANIFEST = dict(
     module="MdOut", ref="§5 C20",
     text="Word bodies are abstract block sequences in MdOut.tla (paragraph / heading 1-9 / quote / code / list item / empty "
-         "paragraph with runs carrying any of the 16 bold-italic-strike-code flag sets and a text class, tables 1x1..3x3); the "
+         "paragraph with runs carrying any of the 16 bold-italic-strike-code flag sets and a text class, tables 1x1..3x3; a "
+         "heading / quote / code paragraph may also carry numbering properties - Word's numbered headings - and any styled "
+         "paragraph may be blank; the text classes cover the Markdown metacharacters in harmless and meaningful positions, "
+         "every list marker in front of a word, texts that are a block marker and nothing else, and white space); the "
          "reference function MdOut!ToMd(body, options) gives what the property demands of the Markdown as a relation over its "
          "projection (block kinds in body order, every run's visible tokens exactly once, flags), and MdOut!Judge compares an "
          "observed projection with it field by field. TLC builds every body within the bounds block by block (so every "
          "interleaving of paragraphs and tables) x export options x ways of calling the exporter, checks the design laws of ToMd "
-         "on all of them (order, text exactly once, flags, options only govern the table layout, the judge accepts the reference "
-         "and rejects damaged projections, compositionality, the fixpoint on the model) and emits the cases. The harness builds "
+         "on all of them (order, text exactly once, flags, options only govern the table layout, the style decides what a "
+         "numbered paragraph is, a block that shows nothing leaves no trace in the others, the judge accepts the reference "
+         "and rejects damaged projections, compositionality, the fixpoint on the model) and emits the cases; dedicated layers put "
+         "a blank styled paragraph before and between blocks with formatted and escapable text (the exporter's walk has a memory: "
+         "in a list, in a code block) and numbered headings / quotes / code next to list items under both heading syntaxes. The harness builds "
          "each body with the public API (optionally saves and reopens it), exports it through ExportToString / ExportToBytes / "
          "ExportToFile / BatchExport / AutoConvert, reads the Markdown with the reference CommonMark+GFM renderer, converts it "
          "back with the real ConvertString, projects the converted document from its saved bytes with the independent reader and "
@@ -30,7 +36,8 @@ RULE = ("cases = every Word body within each bfs_* bound (built by the generator
         "flags, table cells) and compared with MdOut!ToMd by MdOut!Judge (phase exp); the Markdown is converted back by the real "
         "ConvertString, the saved converted document is projected the same way and compared again (phase fix: block sequence and "
         "text), and the export of the converted document must equal the first export (fix/stable); a deviation is reported under "
-        "(phase, field, construct classes), minimal class sets only")
+        "(phase, field, construct classes), minimal class sets only; the classes of a block include what it is (kind, numbering "
+        "properties, text classes, flag sets, how its runs meet) and which blank styled paragraphs precede it in the body")
 
 LAWS = ["Inv_Order", "Inv_TextOnce", "Inv_Flags", "Inv_Options", "Inv_Reflexive", "Inv_Sensitive", "Inv_StyleWins", "Inv_BlankNoTrace"]
 PAR = 6
@@ -164,9 +171,10 @@ def S(*xs):
 
 F16 = S("", "b", "i", "s", "c", "bi", "bs", "bc", "is", "ic", "sc", "bis", "bic", "bsc", "isc", "bisc")
 META = S("star", "star1", "us", "us1", "hash", "hashend", "pipe", "tick", "tick1", "gt", "brk", "link", "bs", "bs1", "lt", "lt1",
-         "amp", "amp1", "tilde", "numdot", "dash", "dash1", "fence", "plus", "numpar", "num2")
-# the whole text is a block marker (or looks like one)
-MARK = S("m-dash", "m-plus", "m-star", "m-num", "m-par", "m-hash", "m-gt", "m-rule", "m-eq", "m-dashsp", "dashw", "decimal")
+         "amp", "amp1", "tilde", "numdot", "dash", "dash1", "fence")
+# the list markers the first set lacks, in front of a word; texts that are a block marker and nothing else; look-alikes
+MARK = S("plus", "numpar", "num2", "m-dash", "m-plus", "m-star", "m-num", "m-par", "m-hash", "m-gt", "m-rule", "m-eq", "m-dashsp",
+         "dashw", "decimal")
 SPACE = S("lead", "trail", "dbl", "ind4", "nl", "tab")
 ALLCLS = META | MARK | SPACE | S("w1", "two", "cjk", "empty")
 STYLED = S("h", "q", "code", "li")
@@ -215,7 +223,11 @@ def tiers(ctx):
         # all 16 flag sets in the other kinds of paragraph
         "flagkinds": layer(Kinds=S("h", "q", "code", "li"), HLevels=S(2), FlagNames=F16),
         # every text class in every kind of paragraph, plain and bold
-        "text": layer(Kinds=S("p", "h", "q", "code", "li"), HLevels=S(1, 3), LiTypes=S("bul", "num"), FirstCls=ALLCLS, FlagNames=S("", "b")),
+        "text": layer(Kinds=S("p", "h", "q", "code", "li"), HLevels=S(1, 3), LiTypes=S("bul", "num"), FirstCls=ALLCLS - MARK if q else ALLCLS,
+                      FlagNames=S("", "b")),
+        # a text that is a block marker and nothing else (- + * 12. 3) # > --- ===), the markers in front of a word, look-alikes:
+        # in every kind of paragraph (quick: plain; thorough: also bold, in the layer above, and under both heading syntaxes)
+        "markers": layer(Kinds=S("p", "h", "q", "code", "li"), HLevels=S(1, 3), FirstCls=MARK, Setexts=B(F) if q else B(F, T), OptArity=1),
         # every text class as the second run (after a plain word, no white space between)
         "text2": layer(MaxRuns=2, MinBlocks=1, Kinds=S("p") if q else S("p", "h", "li"), FirstCls=S("w3"), MoreCls=ALLCLS - S("w1", "two"),
                        FlagNames=S("") if q else S("", "i")),
@@ -231,15 +243,17 @@ def tiers(ctx):
                          OptArity=2 if q else 8, **ALLOPT),
         # the exporter's walk has a memory (in a list, in a code block): a blank heading / quote / code paragraph / list item /
         # plain paragraph, then every kind of block with formatted text and with text that must be escaped ...
-        "carry": layer("CS_meta", MaxBlocks=2, MinBlocks=2, Kinds=ALLK, BlankKinds=STYLED, BlankOnly=S(1), EmptyCls=S("none", "ws"),
+        "carry": layer("CS_meta", MaxBlocks=2, MinBlocks=2, Kinds=ALLK, BlankKinds=STYLED, BlankOnly=S(1),
+                       EmptyCls=S(("ws", "none")[ctx.seed % 2]) if q else S("none", "ws"),
                        FlagNames=S("", "b"), FirstCls=S("w1", "star"), TblShapes=S("1x1")),
-        # ... and the same between two blocks (the blank paragraph's content rotates with the seed in the quick tier)
+        # ... and the same between two blocks (in the quick tier what the blank paragraph holds - no run, a run of white space -
+        # rotates with the seed, the other way round in the two layers)
         "carry3": layer("CS_meta", MaxBlocks=3, MinBlocks=3, Kinds=S("p", "li", "code", "empty") if q else ALLK, BlankKinds=STYLED, BlankOnly=S(2),
                         EmptyCls=S(("none", "ws")[ctx.seed % 2]) if q else S("none", "ws"), FlagNames=S("", "b"), FirstCls=S("star"),
                         TblShapes=S("1x1")),
         # headings / quotes / code paragraphs that carry numbering properties (Word's numbered headings) next to list items and
         # to each other, in both heading syntaxes
-        "numbered": layer(MaxBlocks=2, MinBlocks=2, Kinds=S("p", "h", "q", "code", "li"), NumPrs=S("", "bul") if q else S("", "bul", "num"),
+        "numbered": layer(MaxBlocks=2, MinBlocks=2, Kinds=S("p", "h", "q", "code", "li"), NumPrs=S("", ("num", "bul")[ctx.seed % 2]) if q else S("", "bul", "num"),
                           HLevels=S(1, 2) if q else S(1, 2, 3), PosText=True, Setexts=B(F, T), OptArity=1),
         # every way of calling the exporter, on documents built in memory and opened from saved bytes
         "calls": layer(MaxBlocks=2, Kinds=S("p", "tbl") if q else S("p", "h", "li", "tbl"), PosText=True, Gfms=B(T, F), Setexts=B(F, T), OptArity=1,
@@ -326,6 +340,11 @@ ASSUMPTIONS = [
     "white-space-only paragraph has nothing to show and is not demanded in the Markdown",
     "Markdown has six heading levels: Heading7-9 may be written as level 6; the list marker type (bullet/number) and the nesting level of a "
     "list item are not demanded (the statement speaks of order, text and the four character formats); code blocks carry no inline flags",
+    "the paragraph style decides what a paragraph is: a heading / quote / code paragraph that also carries numbering properties (a Word "
+    "numbered heading) is demanded as the heading / quote / code it is, its number is not demanded; the harness checks on the saved "
+    "bytes that the numbering properties are really there",
+    "a heading / quote / code paragraph / list item without a word shows nothing, like an empty paragraph: it is not demanded in the "
+    "Markdown, and the blocks after it must look exactly as they would without it",
     "flags are demanded of paragraphs, headings, quotes and list items in the export; for the converted-back document the statement "
     "demands block sequence and text only; the second export must equal the first as a string",
     "a table exported in the non-GFM layout (UseGFMTables=false) is not a Markdown table: only its words (once, in order) are demanded of "
